@@ -1963,6 +1963,14 @@ class C20(Spec):
         for m in measures:
             cols = [t for t in tickers if r.random() < 0.85] or tickers[:1]
             ur[m] = {"cols": cols, "data": [[round(r.uniform(-2, 2), 3) for _ in cols] for _ in dates]}
+            if r.random() < 0.3:
+                # this measure's table starts earlier than the prices (each table has its own calendar)
+                import datetime as _dtp
+
+                d0 = _dtp.datetime.fromisoformat(dates[0])
+                kpre = r.randint(1, 3)
+                ur[m]["pre"] = [[(d0 - _dtp.timedelta(days=3 * (kpre - j))).isoformat(), [round(r.uniform(-2, 2), 3) for _ in cols]] for j in range(kpre)]
+                fired["unit_risk_table_with_own_calendar"] = 1
         extra["unit_risk"] = {"kind": "unit_risk", "measures": ur}
         hist = r.randint(0, 3)
         upd = [{"a": "UpdateRisk", "args": [m], "kw": {"history": hist}} for m in measures]
@@ -2447,6 +2455,11 @@ class C15(Spec):
                 inner = {"a": a, "kw": win()}
                 if a == "WeighMeanVar" and r.random() < 0.5:
                     inner["kw"]["bounds"] = [0.0, r.choice([0.6, 0.8, 1.0])]
+                if a == "WeighERC" and len(sel) >= 2 and r.random() < 0.5:
+                    # a risk budget, given as a list in the order of the selection (which is not the order of the data's columns)
+                    raw = [r.uniform(0.2, 1.0) for _ in sel]
+                    inner["kw"]["risk_weights"] = [round(x / sum(raw), 4) for x in raw]
+                    fired["erc_risk_budget"] = 1
             elif a == "WeighRandomly":
                 lo = r.choice([0.0, 0.0, 0.1])
                 hi = r.choice([1.0, 0.6, 0.4, 0.2])
